@@ -7,7 +7,7 @@ namespace Galaxy.Plugin
 open Galaxy
 
 theorem frame_setAlloc (s : State) (t : Tbl IP Rec) : Frame s { s with alloc := t } :=
-  ⟨rfl, rfl, rfl, rfl, rfl, rfl, rfl, rfl, rfl, rfl, rfl, rfl, rfl, rfl, Nat.le_refl _⟩
+  ⟨rfl, rfl, rfl, rfl, rfl, rfl, rfl, rfl, rfl, rfl, rfl, rfl, rfl, rfl, Nat.le_refl _, rfl⟩
 
 theorem reserveLoop_coherent (oldK newK : Key) (a : Attr) (ips : List IP) :
     ∀ s, Coherent s → Coherent (reserveLoop s oldK newK a ips).1 := by
